@@ -9,3 +9,4 @@ git -C $WT checkout -- . ; git -C $WT clean -fdq
 git -C $WT apply $PATCH || { echo "patch does not apply"; exit 3; }
 VERIF_ALT_REPO=$WT ./bin/vcheck -p $P -tier $T 2>&1 | grep -E "^(VIOLATION|SUMMARY|INCONCLUSIVE|KNOWN)" | cut -c1-330 | head -${4:-8}
 git -C $WT checkout -- . ; git -C $WT clean -fdq
+rm -f .build/bin/vworker*-alt-* .build/alt-*.mod .build/alt-*.sum
